@@ -136,5 +136,5 @@ DesignDnf == m > 0 => LET d == MDnf(T, N, E, FALSE, TrueI, FalseI) IN IsDNF(d) /
 AsWritten == m > 0 => LET d == MDnf(T, N, E, TRUE, TrueI, FalseI) IN IsDNF(d) /\ TT(T, N, d) = TT(T, N, E)
 \* ... and only there (the as-written and the repaired mechanism differ on nothing else)
 AsWrittenOnlyThere == m > 0 => \/ HasValidProductTerm(T, N, MNnf(E, TRUE))
-                               \/ MDnf(T, N, E, TRUE, TrueI, FalseI) = MDnf(T, N, E, FALSE, TrueI, FalseI)
+                               \/ SkEq(MDnf(T, N, E, TRUE, TrueI, FalseI), MDnf(T, N, E, FALSE, TrueI, FalseI))
 =============================================================================
